@@ -4,14 +4,14 @@
    or without the deprecation warning) and [parse_bool]. *)
 From Coq Require Import String Ascii ZArith List Bool Lia.
 Import ListNotations.
-From Verif Require Import Base.PyValue Model.Eval Model.PyMini Model.PrimsApi Proofs.PyMiniLemmas Proofs.SrcApi.
+From Verif Require Import Base.PyValue Model.Eval Model.PyMini Model.PrimsApi Model.PrimsShell Proofs.PyMiniLemmas
+  Proofs.SrcApi.
 From Verif Require Model.Shell.
 From Verif Require Import Gen.SrcShell.
 Open Scope string_scope.
 Open Scope list_scope.
 Open Scope Z_scope.
 
-Definition PS (s : list Z) : pv := PV (VStr s).
 
 (* what DispatchingShell.parseline returns, written with the model's cmd_parseline (cmd.Cmd.parseline) *)
 Definition sh_parseline (line : list Z) : pv :=
@@ -52,7 +52,8 @@ Variable msg : string -> list pv -> pv.
 Variable ga : list Z -> option nat.          (* getattr(self, name, None): the bound method of that name, if any *)
 
 Definition shell_lib : strlib :=
-  {| sl_strip := Shell.strip; sl_lower := Shell.lower; sl_parseline := Shell.cmd_parseline; sl_getattr := ga |}.
+  {| sl_strip := Shell.strip; sl_lower := Shell.lower; sl_parseline := Shell.cmd_parseline; sl_getattr := ga;
+     sl_ext := shell_ext |}.
 Notation prim := (prim_api shell_lib msg).
 
 Theorem parseline_src : forall (flds : env) (line : list Z),
@@ -76,14 +77,17 @@ Qed.
 (* ---- onecmd: which handler an input line reaches *)
 Definition do_name (cmd : list Z) : list Z := zs "do_" ++ cmd.
 
-Definition dispatch (kexec : nat) (flds : env) (c : Shell.cls) : res (env * pv) :=
+Definition unknown_command (name : list Z) : pv :=
+  PTuple [PS (zs "error"); PS (zs "unknown command """ ++ name ++ [34])].
+
+Definition dispatch (kexec : nat) (flds : env) (evs : list pv) (c : Shell.cls) : res (env * pv) :=
   match c with
   | Shell.Empty => Ok (flds, PNone)
   | Shell.Query text => bind (do_call call_ref (PRef kexec) [PS text]) (fun r => Ok (flds, r))
   | Shell.Command _ name arg =>
       match ga (do_name name) with
       | Some k => bind (do_call call_ref (PRef k) [PS arg]) (fun r => Ok (flds, r))
-      | None => Ok (flds, PNone)              (* after self.error('unknown command ...') *)
+      | None => Ok (update "$events" (PList (evs ++ [unknown_command name])) flds, PNone)   (* self.error(..) *)
       end
   end.
 
@@ -93,18 +97,17 @@ Lemma legacy_mem c :
      PS (zs "quit"); PS (zs "run"); PS (zs "set")] = Shell.mem c Shell.legacy.
 Proof. unfold PS. cbn [existsb]. rewrite !pv_eqb_str. reflexivity. Qed.
 
-Theorem onecmd_src : forall (kpl kexec kerr kwarn : nat) (flds : env) (line : list Z),
+Theorem onecmd_src : forall (kpl kexec kwarn : nat) (flds : env) (evs : list pv) (line : list Z),
   ref_of refs "_warnings.warn:stacklevel" = Some kwarn ->
   lookup "parseline" flds = Some (PRef kpl) -> lookup "execute" flds = Some (PRef kexec) ->
-  lookup "error" flds = Some (PRef kerr) ->
+  lookup "$events" flds = Some (PList evs) ->                   (* what the shell has written so far (rule R10) *)
   (forall l, call_ref kpl [PS l] = sh_parseline l) ->          (* self.parseline is the method tied above *)
-  (forall args, exists v, do_call call_ref (PRef kwarn) args = Ok v) ->   (* warnings.warn / self.error return *)
-  (forall args, exists v, do_call call_ref (PRef kerr) args = Ok v) ->
-  call_method call_ref prim shell_onecmd flds [PS line] = dispatch kexec flds (Shell.classify line).
+  (forall args, exists v, do_call call_ref (PRef kwarn) args = Ok v) ->   (* warnings.warn returns *)
+  call_method call_ref prim shell_onecmd flds [PS line] = dispatch kexec flds evs (Shell.classify line).
 Proof.
-  intros kpl kexec kerr kwarn flds line Hk Hpl Hex Her Hparse Hwarn Herr.
+  intros kpl kexec kwarn flds evs line Hk Hpl Hex Her Hparse Hwarn.
   cbn in Hk. injection Hk as <-.
-  unfold shell_onecmd, call_method, dispatch, PS in *.
+  unfold shell_onecmd, call_method, dispatch, unknown_command, PS in *.
   cbn -[compare1 do_call pv_eqb zprefix Shell.lower Shell.legacy]. rewrite Hpl. cbn -[compare1 do_call pv_eqb zprefix Shell.lower Shell.legacy].
   unfold do_call at 1. rewrite Hparse. unfold sh_parseline, Shell.classify.
   destruct (Shell.cmd_parseline line) as [[[cmd arg] l]|]; [|reflexivity].
@@ -125,8 +128,7 @@ Proof.
     unfold do_name. cbn -[do_call Shell.lower].
     match goal with |- context [ga ?x] => destruct (ga x) as [k|] end.
     + cbn -[do_call]. destruct (do_call call_ref (PRef k) [PV (VStr arg)]); cbn; reflexivity.
-    + cbn -[do_call]. rewrite Her. cbn -[do_call].
-      match goal with |- context [do_call call_ref (PRef kerr) ?a] => destruct (Herr a) as [v ->] end. reflexivity.
+    + cbn -[do_call]. rewrite Her. reflexivity.
   - cbn -[compare1 do_call pv_eqb zprefix Shell.lower Shell.mem Shell.starts_with Shell.legacy].
     unfold compare1.
     match goal with |- context [existsb (pv_eqb (PV (VStr ?c))) ?L] =>
@@ -140,8 +142,7 @@ Proof.
       unfold do_name. cbn -[do_call Shell.lower].
       match goal with |- context [ga ?x] => destruct (ga x) as [k|] end.
       * cbn -[do_call]. destruct (do_call call_ref (PRef k) [PV (VStr arg)]); cbn; reflexivity.
-      * cbn -[do_call]. rewrite Her. cbn -[do_call].
-        match goal with |- context [do_call call_ref (PRef kerr) ?a] => destruct (Herr a) as [v' ->] end. reflexivity.
+      * cbn -[do_call Shell.lower]. rewrite Her. reflexivity.
     + cbn -[do_call Shell.lower]. rewrite Hex. cbn -[do_call].
       destruct (do_call call_ref (PRef kexec) [PV (VStr l')]); reflexivity.
 Qed.
@@ -178,4 +179,130 @@ Proof.
   match goal with |- context [if ?c then inr false else _] => destruct c end; reflexivity.
 Qed.
 
+
+(* ---- Settings._parse_format *)
+Theorem parse_format_src : forall (flds : env) (v : list Z),
+  call_method call_ref prim settings_parse_format flds [PS v] =
+  match Shell.parse_format v with
+  | inr s => Ok (flds, PS s)
+  | inl _ => Exc ValueError
+  end.
+Proof.
+  intros flds v. unfold settings_parse_format, call_method, Shell.parse_format, PS.
+  cbn -[Shell.mem Shell.formats]. destruct (Shell.mem v Shell.formats); reflexivity.
+Qed.
+
 End Tie.
+
+(* ================================================================ the Settings object as a value *)
+Lemma zeqb_sym a b : zeqb a b = zeqb b a.
+Proof. revert b; induction a as [|x a IH]; intros [|y b]; cbn; try reflexivity. now rewrite Z.eqb_sym, IH. Qed.
+
+Lemma assoc_fields n st :
+  assoc (PS n) (enc_fields st) = match Shell.lookup st n with Some v => Some (enc_value v) | None => None end.
+Proof.
+  induction st as [|[k v] t IH]; [reflexivity|]. cbn [enc_fields map assoc fst snd PS key_eqb Shell.lookup].
+  change (Shell.str_eqb k n) with (zeqb k n). rewrite (zeqb_sym n k). destruct (zeqb k n); [reflexivity|exact IH].
+Qed.
+
+Lemma dec_enc_fields st : dec_fields (enc_fields st) = Some st.
+Proof.
+  induction st as [|[k v] t IH]; [reflexivity|]. cbn [enc_fields map dec_fields fst snd PS].
+  fold (enc_fields t). rewrite IH. destruct v; reflexivity.
+Qed.
+Lemma dec_enc_state st : dec_state (enc_state st) = Some st.
+Proof. unfold dec_state, enc_state. rewrite zeqb_refl. apply dec_enc_fields. Qed.
+
+Lemma enc_fields_cons k v t : enc_fields ((k, v) :: t) = PTuple [PV (VStr k); enc_value v] :: enc_fields t.
+Proof. reflexivity. Qed.
+
+Lemma set_field_update n st cur new : Shell.lookup st n = Some cur ->
+  set_field (PV (VStr n)) (enc_value new) (enc_fields st) = enc_fields (Shell.update st n new).
+Proof.
+  induction st as [|[k v] t IH]; [discriminate|]. rewrite enc_fields_cons.
+  cbn [set_field key_eqb Shell.lookup Shell.update].
+  change (Shell.str_eqb k n) with (zeqb k n). rewrite (zeqb_sym n k). destruct (zeqb k n); [reflexivity|].
+  intros H. rewrite enc_fields_cons, (IH H). reflexivity.
+Qed.
+
+Definition settings_lib : strlib :=
+  {| sl_strip := Shell.strip; sl_lower := Shell.lower; sl_parseline := Shell.cmd_parseline;
+     sl_getattr := settings_getattr; sl_ext := shell_ext |}.
+
+Section Settings.
+Variable call_ref : nat -> list pv -> pv.
+Variable msg : string -> list pv -> pv.
+Notation prim := (prim_api settings_lib msg).
+
+Theorem getstr_src : forall (st : Shell.state) (n : list Z),
+  call_function call_ref prim settings_getstr [enc_state st; PS n] =
+  match Shell.lookup st n with
+  | Some v => Ok (PS (Shell.getstr v))
+  | None => Exc AttributeError
+  end.
+Proof.
+  intros st n. unfold settings_getstr, call_function, enc_state, PS.
+  cbn -[assoc enc_fields Shell.getstr Shell.py_repr Shell.Z_to_str].
+  pose proof (assoc_fields n st) as H. unfold PS in H.
+  destruct (Shell.lookup st n) as [[b|s|z]|];
+    repeat (progress (cbn -[assoc enc_fields Shell.getstr Shell.py_repr Shell.Z_to_str]; rewrite ?H));
+    try reflexivity. destruct b; reflexivity.
+Qed.
+
+(* setstr.  The parsers and classes are opaque callables with the reserved numbers of Model/PrimsShell.v:
+   _parse_bool and _parse_format return what their translated bodies return (parse_bool_src, parse_format_src),
+   str(v) is v, int(v) is Python's int() of the model *)
+Definition callables_ok : Prop :=
+  (forall v, call_ref (parser_ref 0) [PS v] = enc_parsed PBool (Shell.parse_bool v)) /\
+  (forall v, call_ref (parser_ref 1) [PS v] = enc_parsed PS (Shell.parse_format v)) /\
+  (forall v, call_ref cls_str [PS v] = PS v) /\
+  (forall v, call_ref cls_int [PS v] = match Shell.py_int v with Some z => PInt z | None => PV (VErr ValueError) end).
+
+Definition no_parse_field (st : Shell.state) : Prop :=
+  forall nv, In nv st -> zstrip_prefix (zs "_parse_") (fst nv) = None.
+
+Lemma assoc_parse_none st x : no_parse_field st -> assoc (PV (VStr (zs "_parse_" ++ x))) (enc_fields st) = None.
+Proof.
+  intros H. pose proof (assoc_fields (zs "_parse_" ++ x) st) as E. unfold PS in E. rewrite E.
+  destruct (Shell.lookup st (zs "_parse_" ++ x)) eqn:L; [|reflexivity]. exfalso.
+  clear E. revert L. induction st as [|[k v'] t IH]; [discriminate|]. cbn [Shell.lookup].
+  change (Shell.str_eqb k (zs "_parse_" ++ x)) with (zeqb k (zs "_parse_" ++ x)).
+  destruct (zeqb k (zs "_parse_" ++ x)) eqn:Ek.
+  - intros _. apply zeqb_eq in Ek. specialize (H (k, v') (or_introl eq_refl)). cbn [fst] in H. subst k.
+    clear - H. cbn in H. discriminate.
+  - intros L. apply IH; [|exact L]. intros nv Hin. apply H. now right.
+Qed.
+
+Theorem setstr_src : forall (st : Shell.state) (n v : list Z),
+  callables_ok -> no_parse_field st ->
+  call_on_value call_ref prim settings_setstr [enc_state st; PS n; PS v] =
+  match Shell.lookup st n with
+  | None => Exc AttributeError
+  | Some cur =>
+      match Shell.parse_value n (Shell.type_of cur) v with
+      | inl _ => Exc ValueError
+      | inr new => Ok (enc_state (Shell.update st n new), PNone)
+      end
+  end.
+Proof.
+  intros st n v (Hb & Hf & Hs & Hi) Hnp.
+  unfold settings_setstr, call_on_value, enc_state, PS.
+  pose proof (assoc_fields n st) as H. unfold PS in H.
+  destruct (Shell.lookup st n) as [cur|] eqn:L;
+    [|repeat (progress (cbn -[assoc enc_fields]; rewrite ?H)); reflexivity].
+  pose proof (assoc_parse_none st n Hnp) as P0. cbn -[assoc enc_fields] in P0.
+  pose proof (assoc_parse_none st (zs "bool") Hnp) as P1. cbn -[assoc enc_fields] in P1.
+  pose proof (assoc_parse_none st (zs "str") Hnp) as P2. cbn -[assoc enc_fields] in P2.
+  pose proof (assoc_parse_none st (zs "int") Hnp) as P3. cbn -[assoc enc_fields] in P3.
+  unfold Shell.parse_value, Shell.mem, Shell.parsers. cbn [existsb].
+  destruct (Shell.str_eqb n (Shell.s2z "bool")) eqn:E1;
+    change (Shell.str_eqb n (Shell.s2z "bool")) with (zeqb n [98; 111; 111; 108]) in E1;
+  destruct (Shell.str_eqb n (Shell.s2z "format")) eqn:E2;
+    change (Shell.str_eqb n (Shell.s2z "format")) with (zeqb n [102; 111; 114; 109; 97; 116]) in E2;
+  destruct cur as [b|s0|z];
+  repeat (progress (cbn -[assoc enc_fields set_field Shell.parse_bool Shell.parse_format Shell.py_int];
+                    rewrite ?H, ?P0, ?P1, ?P2, ?P3, ?E1, ?E2));
+  rewrite ?Hb, ?Hf, ?Hs, ?Hi.
+  Show.
+Abort.
+End Settings.
